@@ -175,6 +175,35 @@ pub enum Body {
     Chunked(Vec<u8>, Fields),
 }
 
+/// A structural position at which an H1 client cuts its request bytes (the segments are written
+/// separately, with a pause, so that sozu sees them in separate reads). The number is a
+/// per-mille position inside the named region.
+#[derive(Clone, Copy, Debug, PartialEq, Eq)]
+pub enum Cut {
+    /// inside the head (request line + header lines + empty line)
+    InHead(u16),
+    /// exactly between the head and the body
+    HeadBody,
+    /// inside the first chunk-size line (chunked bodies)
+    InChunkSize(u16),
+    /// inside the body bytes (chunk data / length-delimited data)
+    InBody(u16),
+    /// inside the region from the last chunk's size line `0 CRLF` to the final CRLF of the trailer section
+    InTrailerRegion(u16),
+}
+
+impl Cut {
+    pub fn name(self) -> &'static str {
+        match self {
+            Cut::InHead(_) => "in_head",
+            Cut::HeadBody => "head_body_boundary",
+            Cut::InChunkSize(_) => "in_chunk_size_line",
+            Cut::InBody(_) => "in_body",
+            Cut::InTrailerRegion(_) => "in_trailer_region",
+        }
+    }
+}
+
 #[derive(Clone, Debug)]
 pub struct ReqSpec {
     pub index: u64,
@@ -189,6 +218,8 @@ pub struct ReqSpec {
     pub body: Body,
     /// H1: put the Host line last instead of first
     pub host_last: bool,
+    /// H1: where the request bytes are cut into separately written segments
+    pub cuts: Vec<Cut>,
     /// feature tags (shape of the case)
     pub tags: Vec<&'static str>,
 }
@@ -209,6 +240,9 @@ pub struct RespSpec {
     pub body_len: usize,
     pub chunked: bool,
     pub trailers: Fields,
+    /// H1 backend: per-mille position inside the last-chunk + trailer region at which the response
+    /// bytes are cut into two separately written segments
+    pub cut_in_trailer_region: Option<u16>,
 }
 
 #[derive(Clone, Debug)]
